@@ -32,14 +32,37 @@ pub fn wellformed(kind: &str, n: usize, seed: u64) -> Vec<u8> {
     };
     match kind {
         "pk" => {
-            let h: Vec<i64> = (0..n).map(|_| (next() % 12289) as i64).collect();
+            let mut h: Vec<i64> = (0..n).map(|_| (next() % 12289) as i64).collect();
+            // structure that length- or degree-based encoders get wrong: zero leading / trailing coefficients
+            match seed % 8 {
+                0 => {
+                    let k = 1 + (seed / 8 % 3) as usize;
+                    for x in h[n - k..].iter_mut() {
+                        *x = 0;
+                    }
+                }
+                1 => h[0] = 0,
+                _ => {}
+            }
             keys::encode_pk(&h)
         }
         "sk" => {
             let lim = (1i64 << (p.fg_bits - 1)) - 1;
             let f: Vec<i64> = (0..n).map(|_| (next() % (2 * lim as u64 + 1)) as i64 - lim).collect();
             let g: Vec<i64> = (0..n).map(|_| (next() % (2 * lim as u64 + 1)) as i64 - lim).collect();
-            let cf: Vec<i64> = (0..n).map(|_| (next() % 255) as i64 - 127).collect();
+            let mut cf: Vec<i64> = (0..n).map(|_| (next() % 255) as i64 - 127).collect();
+            let (mut f, mut g) = (f, g);
+            match seed % 8 {
+                0 => f[n - 1] = 0,
+                1 => g[n - 1] = 0,
+                2 => cf[n - 1] = 0,
+                3 => {
+                    f[0] = 0;
+                    g[0] = 0;
+                    cf[0] = 0;
+                }
+                _ => {}
+            }
             keys::encode_sk(&f, &g, &cf).unwrap()
         }
         _ => {
